@@ -20,7 +20,10 @@ build() { # $1 = default|unimock
   local feat=""; [ "$1" = unimock ] && feat="--features unimock"
   local skips="" round new log="$VERIF/target/gensim-build-$1.log"
   for round in 1 2 3 4 5 6 7 8; do
-    if cargo rustc --release --offline --bin gensim $feat -- $skips 2>"$log"; then
+    # -A warnings: the container mapping below must see the locations of ERRORS only (a warning such
+    # as `unconditional_recursion` points at exactly the functions a change mis-generates; dropping
+    # those would hide the violation)
+    if cargo rustc --release --offline --bin gensim $feat -- -A warnings $skips 2>"$log"; then
       cp -f "$VERIF/target/gensim/release/gensim" "$BIN/gensim-$1" || return 2
       if [ -n "$skips" ]; then
         FALLBACK=1
